@@ -64,7 +64,7 @@ fn try_key<const N: usize>(acc: &mut Acc, s: &str) {
         Ok(Ok(())) => {
             acc.bump("hexkey:Ok");
             // a key of the wrong length must not be reported as success either
-            if s.chars().filter(|c| c.is_ascii_hexdigit()).count() != 2 * N {
+            if s.chars().all(|c| c.is_ascii_hexdigit()) && s.len() != 2 * N {
                 acc.violate(format!("C09|Key<{}>::try_from|accepted-wrong-length", N), format!("Key::<{}>::try_from accepted a hex string of {} characters", N, s.len()), json!({"kind": "hexkey", "n": N, "input": s}));
             }
         }
